@@ -147,6 +147,50 @@ def tps_body(ctx, case):
     ctx.close(ax, np.arange(nb) * case["rate"] / nf, 1e-12, "frequency axis == k frame_rate / n_frames", scale=case["rate"])
 
 
+# ------------------------------------------------------------------ estimator on generated screens: exact ensemble expectation
+
+@st.composite
+def ens_cases(draw):
+    N = 2 * draw(st.integers(4, 8))
+    delta = draw(gen.logfloat(0.02, 0.5))
+    return {"N": N, "delta": delta, "r0": draw(gen.logfloat(0.05, 1.0)), "L0": N * delta * draw(gen.logfloat(0.5, 10.0)), "sh": draw(st.booleans()),
+            "step": draw(st.integers(1, 2))}
+
+
+def ens_body(ctx, p):
+    """The estimator is quadratic in the screen and the screen is linear in its unit-normal draws (phi = L g), so
+    E[sf_j] = trace(Q_j) = sum_k sf_j(L e_k): the exact ensemble expectation is obtained by applying the *real*
+    estimator to the unit-draw screens.  It must equal the lag average of the exact ensemble structure function
+    L L^T gives, and follow the analytic von Karman curve within the FFT-screen deficit."""
+    from . import c07
+    from ..oracles import vk
+    sc, _ = S()
+    N, delta, r0, L0, step = p["N"], p["delta"], p["r0"], p["L0"], p["step"]
+    ctx.case(p, nontrivial=True, classes=["sub_harmonic" if p["sh"] else "plain", "step%d" % step])
+    import warnings
+    with warnings.catch_warnings():
+        warnings.simplefilter("ignore")
+        L, _, _ = c07.probe(N, delta, r0, L0, delta / 100.0, sh=p["sh"])
+    nlag = int(min(N / 4.0, N / step - 1))
+    acc = np.zeros(nlag)
+    for k in range(L.shape[1]):
+        acc += sc.calculate_structure_function(L[:, k].reshape(N, N), step=step)
+    Dens = c07.structure(L @ L.T).reshape(N, N, N, N)
+    want = np.zeros(nlag)
+    for j in range(1, nlag):
+        l = j * step
+        want[j] = np.mean([Dens[i, c, i + l, c] for i in range(N - l) for c in range(N)])
+    ctx.close(acc, want, 1e-9, "ensemble expectation of the estimator == lag average of the exact ensemble structure function", scale=float(np.max(want)) or 1.0, name="estimator expectation")
+    lags = np.arange(1, nlag) * step * delta
+    ana = np.asarray(vk.D(lags, r0, L0)) * (0.023 / vk.C_PSD)
+    ratio = acc[1:] / ana
+    ctx.note("estimator_over_analytic_min_max", [float(ratio.min()), float(ratio.max())] if len(ratio) else [])
+    if len(ratio):
+        ctx.require(bool(np.all(ratio <= 1.02)), "estimated structure function of generated screens exceeds the analytic von Karman one: ratio %r" % ratio.tolist())
+        ctx.require(bool(np.all(ratio >= (0.5 if p["sh"] else 0.15))), "estimated structure function of generated screens is far below the analytic one: ratio %r (N=%d, L0/width=%.3g, sub-harmonics=%r)" % (ratio.tolist(), N, L0 / (N * delta), p["sh"]))
+        ctx.require(bool(np.all(np.diff(acc[1:]) > 0)), "estimated structure function of generated screens is not increasing over the first lags")
+
+
 def self_test():
     dft.self_test()
 
@@ -154,4 +198,5 @@ def self_test():
 LAWS = [
     given_law("structure_function", sf_cases(), sf_body, {"quick": 800, "thorough": 5000}),
     given_law("temporal_ps", tps_cases(), tps_body, {"quick": 600, "thorough": 4000}),
+    given_law("screens_ensemble", ens_cases(), ens_body, {"quick": 6, "thorough": 30}, shards={"quick": 3, "thorough": 16}),
 ]
